@@ -380,6 +380,68 @@ func (r *FlowResult) BeforeFull(in ssa.Instruction) []string {
 	return cur
 }
 
+// StateF is a user state together with what the path knows about merged flags
+// and the values they merge (see facts.go): 'T','F' for booleans, 'Z' nil, 'N' non-nil.
+type StateF struct {
+	User  string
+	Facts map[string]byte // by SSA value name
+}
+
+// FactOf returns what the state's path knows about v (0: nothing).
+func (s StateF) FactOf(v ssa.Value) byte {
+	if v == nil {
+		return 0
+	}
+	if b, ok := boolConst(v); ok {
+		return tf(b)
+	}
+	if isNilConst(v) {
+		return 'Z'
+	}
+	return s.Facts[v.Name()]
+}
+
+// BeforeF is Before with the path facts of each state.
+func (r *FlowResult) BeforeF(in ssa.Instruction) []StateF {
+	b := in.Block()
+	f := r.flow
+	deferIdx := map[*ssa.Defer]int{}
+	var deferByIdx []*ssa.Defer
+	for _, bb := range f.Fn.Blocks {
+		for _, i2 := range bb.Instrs {
+			if d, ok := i2.(*ssa.Defer); ok {
+				deferIdx[d] = len(deferByIdx)
+				deferByIdx = append(deferByIdx, d)
+			}
+		}
+	}
+	var out []StateF
+	seen := map[string]bool{}
+	for _, st := range keys(r.In[b]) {
+		core, fa := splitFacts(st)
+		cur := []string{core}
+		for _, i2 := range b.Instrs {
+			if i2 == in {
+				break
+			}
+			var next []string
+			for _, c := range cur {
+				next = append(next, f.stepOne(c, i2, deferIdx, deferByIdx, r)...)
+			}
+			cur = dedup(next)
+		}
+		for _, c := range cur {
+			u, _ := splitState(c)
+			if seen[u+factSep+fa] {
+				continue
+			}
+			seen[u+factSep+fa] = true
+			out = append(out, StateF{User: u, Facts: parseFacts(fa)})
+		}
+	}
+	return out
+}
+
 // After returns the user states right after instruction in.
 func (r *FlowResult) After(in ssa.Instruction) []string {
 	b := in.Block()
